@@ -518,3 +518,51 @@ func TestC17Replay(t *testing.T) {
 	c17Rec = vkit.NewRecorder("C17")
 	vkit.Replay(t, "C17", checkC17)
 }
+
+// ---- C13 (tool calls): a panic inside a tool call surfaces as an error of the run ---------------
+
+// genC13Tools biases the C17 generator towards what C13 says about tools: exactly one panicking tool,
+// at least two calls, the panicking tool called but not first, released last (so the node is already
+// waiting for its goroutines when the panic is recovered).
+func genC13Tools(t *rapid.T) CaseC17 {
+	c := genC17(t)
+	for i := range c.Tools {
+		c.Tools[i].Fault = ""
+	}
+	pi := rapid.IntRange(0, len(c.Tools)-1).Draw(t, "panicTool")
+	c.Tools[pi].Fault = "panic"
+	for len(c.Calls) < 2 {
+		c.Calls = append(c.Calls, Call17{Tool: c.Tools[0].Name, ID: fmt.Sprintf("x%d", len(c.Calls)), Args: "a"})
+	}
+	for i := range c.Calls {
+		if c.Calls[i].Tool == "nosuchtool" || c.Calls[i].Tool == c.Tools[pi].Name {
+			c.Calls[i].Tool = c.Tools[(pi+1)%len(c.Tools)].Name
+		}
+	}
+	at := rapid.IntRange(1, len(c.Calls)-1).Draw(t, "panicAt")
+	c.Calls[at].Tool = c.Tools[pi].Name
+	c.Order = nil
+	for i := range c.Calls {
+		o := rapid.IntRange(0, 500).Draw(t, "ord")
+		if i == at && rapid.IntRange(0, 3).Draw(t, "panicLast") > 0 {
+			o = 1000 // released last
+		}
+		c.Order = append(c.Order, o)
+	}
+	return c
+}
+
+func TestC13Tools(t *testing.T) {
+	c17Rec = vkit.NewRecorder("C13")
+	vkit.Prop(t, c17Rec, genC13Tools, checkC17)
+}
+
+func TestC13ToolsReplay(t *testing.T) {
+	c17Rec = vkit.NewRecorder("C13")
+	vkit.Replay(t, "C13", func(c CaseC17) (*vkit.Failure, vkit.Meta) {
+		if len(c.Tools) == 0 {
+			return nil, vkit.Meta{}
+		}
+		return checkC17(c)
+	})
+}
